@@ -131,8 +131,26 @@ class MatchStub(_SolverStub):
 
     def __init__(self, H, spacelike_weights=None, **k):
         super().__init__(H)
-        self.weights = spacelike_weights
+        self.weights = k.pop('weights', spacelike_weights) if spacelike_weights is None else spacelike_weights
         self.kwargs = k
+        # documented keyword contract (pymatching 2): parallel edges -- columns with identical support --
+        # are merged according to merge_strategy; the default for a check matrix is 'smallest-weight' (exact
+        # minimum weight).  'keep-original' / 'replace' keep the first / last of the parallel edges only (the
+        # other fault ids can never be flipped).  Any other option leaves only "a solution" as the contract.
+        self.merge = k.get('merge_strategy', 'smallest-weight')
+        self.exact = self.merge in ('smallest-weight', 'keep-original', 'replace') and \
+            not (set(k) - {'merge_strategy'})
+        cols = {}
+        for j in range(self.n):
+            key = tuple(i for i, row in enumerate(self.rows) if j in row)
+            cols.setdefault(key, []).append(j)
+        self.dropped = set()
+        self.groups = {}                  # kept column -> all columns parallel to it (itself included)
+        if self.merge in ('keep-original', 'replace'):
+            for grp in cols.values():
+                keep = grp[0] if self.merge == 'keep-original' else grp[-1]
+                self.dropped |= set(grp) - {keep}
+                self.groups[keep] = list(grp)
         engine().log.append(('Matching', self))
 
     def decode(self, z, num_neighbours=None, **k):
@@ -148,6 +166,8 @@ class MatchStub(_SolverStub):
                 raise ValueError(f'{len(wargs)} weights for {self.n} columns')
         c, constraint = self._solution(wargs + s, [z3.RealSort()] * len(wargs) + [z3.BoolSort()] * self.m, s)
         eng.assume(SymBool(constraint))          # contract: a solution exists and is returned
+        if self.dropped:
+            eng.assume(SymBool(z3.And([z3.Not(c[j]) for j in sorted(self.dropped)])))
         out = as_sa([Bit(t) for t in c])
         self.calls.append((s, c))
         eng.log.append(('Matching.decode', self, s, c))
@@ -157,11 +177,18 @@ class MatchStub(_SolverStub):
         """w.c <= w.c' for a competitor c' with the same syndrome (instantiated optimality)."""
         if call_index >= len(self.calls):
             return z3.BoolVal(True)       # the engine was not called: nothing to assume
+        if not self.exact:
+            return z3.BoolVal(True)       # options outside the modelled contract: only "a solution"
         s, c = self.calls[call_index]
         w = [term_of(x, 'real') for x in np.asarray(self.weights).reshape(-1)]
         same = z3.And([z3_xor([competitor_bits[j] for j in row]) == si for row, si in zip(self.rows, s)])
         wc = z3.Sum([z3.If(c[j], w[j], 0) for j in range(self.n)])
         wc2 = z3.Sum([z3.If(competitor_bits[j], w[j], 0) for j in range(self.n)])
+        if self.dropped:
+            # minimal among the solutions on the kept edges only: the competitor is moved onto the kept
+            # edges (parallel columns are identical, so the syndrome is unchanged)
+            proj = {keep: z3_xor([competitor_bits[j] for j in grp]) for keep, grp in self.groups.items()}
+            wc2 = z3.Sum([z3.If(proj[j], w[j], 0) for j in sorted(proj)])
         return z3.Implies(same, wc <= wc2)
 
 
